@@ -32,7 +32,13 @@ def main():
     env = dict(os.environ, CARGO_NET_OFFLINE="true", CARGO_TARGET_DIR=tgt)
     res = {"name": name, "started": time.strftime("%F %T")}
     sh(f"git -C /repo worktree remove --force {wt}")
-    rc, o = sh(f"git -C /repo worktree add --detach {wt} HEAD")
+    # the commit the change was written against (the sub-agents' worktrees)
+    base = "HEAD"
+    try:
+        base = json.load(open(f"{out}/meta.json")).get("base_commit", "54a30c4c")
+    except Exception:
+        pass
+    rc, o = sh(f"git -C /repo worktree add --detach {wt} {base}")
     if rc != 0:
         print("worktree failed", o); sys.exit(2)
     try:
